@@ -74,6 +74,18 @@ def _extract(job):
             if not np.allclose(sf.field, v*fac, rtol=1e-12, atol=0):
                 notes.append(f"source field is not vector x strength x "
                              f"(-s mu0), frequency {freq}")
+        # the source field is a function of (source, grid, frequency), not
+        # of earlier calls with the same source object
+        st = float(rng.uniform(0.5, 2))
+        src = emg3d.TxElectricDipole(pts.tolist(), strength=st)
+        for freq in (None, -2.0, 1.5, None, 1.5, -2.0):
+            sf = fields.get_source_field(grid, src, freq)
+            fac = st if freq is None else -sf.smu0*st
+            if not np.allclose(sf.field, v*fac, rtol=1e-12, atol=0):
+                notes.append(f"source field of a re-used source object is "
+                             f"not vector x strength x (-s mu0), frequency "
+                             f"{freq}")
+                break
         # conversions: two electrodes <-> centre / azimuth / elevation / length
         src = emg3d.TxElectricDipole(pts.tolist())
         back = electrodes.point_to_dipole(
@@ -111,9 +123,26 @@ def _observations(seed):
         if abs(f.sum() - (pts[-1, c] - pts[0, c])) > 1e-9:
             notes.append(f"wire component {c} sums to {f.sum()}, electrodes "
                          f"differ by {pts[-1, c] - pts[0, c]}")
-    # point source: sums to the unit direction
+    # point source: sums to the unit direction, anywhere inside the grid
+    # (outer half cells, on nodes, at cell centres included)
     az, el = rng.uniform(-180, 180), rng.uniform(-90, 90)
-    p = [rng.uniform(0.6*ext[d]/3, 2*ext[d]/3) for d in range(3)]
+    if rng.random() < 0.2:
+        az, el = rng.choice([0., 90., -90., 180.]), rng.choice([0., 90., -90.])
+    nodes = [grid.nodes_x, grid.nodes_y, grid.nodes_z]
+    p = []
+    for d in range(3):
+        k = rng.integers(5)
+        if k == 0:
+            p.append(rng.uniform(0.02, 0.45)*h[d][0])
+        elif k == 1:
+            p.append(ext[d] - rng.uniform(0.02, 0.45)*h[d][-1])
+        elif k == 2:
+            p.append(float(nodes[d][rng.integers(1, len(nodes[d])-1)]))
+        elif k == 3:
+            i = rng.integers(len(h[d]))
+            p.append(float(nodes[d][i] + h[d][i]/2))
+        else:
+            p.append(rng.uniform(0.02, ext[d]-0.02))
     pv = fields._point_vector(grid, (*p, az, el))
     want = (np.cos(np.deg2rad(az))*np.cos(np.deg2rad(el)),
             np.sin(np.deg2rad(az))*np.cos(np.deg2rad(el)),
@@ -122,24 +151,49 @@ def _observations(seed):
         if abs(f.sum() - want[c]) > 1e-12:
             notes.append(f"point source component {c} sums to {f.sum()}, "
                          f"direction is {want[c]}")
+    # ... also through the public API, with one source object used again
+    st = float(rng.uniform(0.5, 2))
+    psrc = emg3d.TxElectricPoint((*p, az, el), strength=st)
+    for freq in (None, -2.0, 1.5, None, 1.5):
+        sf = fields.get_source_field(grid, psrc, freq)
+        fac = st if freq is None else -sf.smu0*st
+        if not np.allclose(sf.field, pv.field*fac, rtol=1e-12, atol=1e-300):
+            notes.append(f"field of a (re-used) point source is not vector x "
+                         f"strength x (-s mu0), frequency {freq}")
+            break
     # magnetic dipole -> closed planar square loop, area = length,
-    # right-handed normal = dipole direction
+    # right-handed normal = dipole direction; the three ways to get it:
+    # the helper, a TxMagneticDipole given by centre / angles / length, and
+    # a TxMagneticDipole given by its two electrodes
     length = rng.uniform(0.5, 3)
-    loop = electrodes.point_to_square_loop((*p, az, el), length)
-    if not np.allclose(loop[0], loop[-1], atol=1e-12):
-        notes.append("square loop is not closed")
-    e1, e2 = loop[1] - loop[0], loop[2] - loop[1]
-    nrm = np.cross(e1, e2)
-    if abs(np.linalg.norm(nrm) - length) > 1e-9*length:
-        notes.append(f"loop area {np.linalg.norm(nrm)} != length {length}")
-    if not np.allclose(nrm/np.linalg.norm(nrm), want, atol=1e-9):
-        notes.append("loop normal is not the dipole direction")
-    if abs(np.dot(loop[3] - loop[0], nrm)) > 1e-9:
-        notes.append("loop is not planar")
-    if not np.allclose(loop[:4].mean(axis=0), p, atol=1e-9):
-        notes.append("loop is not centred on the dipole")
-    # point <-> dipole
     dip = electrodes.point_to_dipole((*p, az, el), length)
+    loops = {"point_to_square_loop":
+             electrodes.point_to_square_loop((*p, az, el), length),
+             "TxMagneticDipole(centre, angles, length)":
+             emg3d.TxMagneticDipole((*p, az, el), length=length).points,
+             "TxMagneticDipole(two electrodes)":
+             emg3d.TxMagneticDipole(dip).points}
+    for how, loop in loops.items():
+        loop = np.asarray(loop)
+        if loop.shape != (5, 3):
+            notes.append(f"{how}: loop has shape {loop.shape}")
+            continue
+        if not np.allclose(loop[0], loop[-1], atol=1e-12):
+            notes.append(f"{how}: square loop is not closed")
+        e1, e2 = loop[1] - loop[0], loop[2] - loop[1]
+        nrm = np.cross(e1, e2)
+        if abs(np.linalg.norm(nrm) - length) > 1e-9*length:
+            notes.append(f"{how}: loop area {np.linalg.norm(nrm)} != length "
+                         f"{length}")
+        if not np.allclose(nrm/np.linalg.norm(nrm), want, atol=1e-9):
+            notes.append(f"{how}: loop normal is not the dipole direction")
+        if abs(np.dot(loop[3] - loop[0], nrm)) > 1e-9:
+            notes.append(f"{how}: loop is not planar")
+        if not np.allclose(loop[:4].mean(axis=0), p, atol=1e-9):
+            notes.append(f"{how}: loop is not centred on the dipole")
+        if abs(np.linalg.norm(e1) - np.linalg.norm(e2)) > 1e-9:
+            notes.append(f"{how}: loop is not square")
+    # point <-> dipole
     baz, bel, blen = electrodes.dipole_to_point(dip)
     dip2 = electrodes.point_to_dipole((*dip.mean(axis=0), baz, bel), blen)
     if not (np.allclose(dip2, dip, atol=1e-9) and abs(blen - length) < 1e-9
